@@ -9,7 +9,7 @@ from .base import Prop, Ground
 
 class C16(Prop):
     id = "C16"
-    contract_modules = ["folds", "vectorise", "laziness", "lazylist"]
+    contract_modules = ["folds", "vectorise", "laziness", "laziness2", "lazylist"]
     extra_keys = ["vyxal/elements.py::vy_zip"]
     trusted_base = ["sorted / itertools (permutations, product, combinations, zip_longest, groupby) meet their definitions -- assumed, sampled by the bounded laws", "safe_apply(f, ...), subtract(a, b), deep_copy(x) are uninterpreted pure functions of their arguments", "`x in list` is membership up to equality of abstract values", "a consumer snapshots a yielded list at the yield (LazyList.__next__ -> vyxalify copies lists)", "z3 5.1 (unsat answers)"]
     paper_steps = [
